@@ -113,7 +113,7 @@ func VerifC16Token(h *verifh.H) {
 // token and the clock at the time of the request, not by an earlier answer.
 // Under gosx the second parse sees the same token with the time-dependent
 // part of its shape changed (StubJWT); natively a really signed token with a
-// lifetime of 2 s is replayed after 3.2 s.
+// lifetime of 4 s is replayed after 5.5 s.
 func VerifC16Replay(h *verifh.H) {
 	cfg := &JwtConfig{NodeAudience: []string{"node:n1"}, NodeIssuer: []string{"node:n1"}}
 	firstFresh := h.Choice("firstFresh", 2) == 1
@@ -121,7 +121,7 @@ func VerifC16Replay(h *verifh.H) {
 	if h.Symbolic() {
 		h.StubJWT(1, 1, 0, true, firstFresh)
 	} else if firstFresh {
-		text = vSignShortLived(cfg, 2*time.Second)
+		text = vSignShortLived(cfg, 4*time.Second)
 	} else {
 		text = vSignShortLived(cfg, -time.Hour)
 	}
@@ -131,7 +131,7 @@ func VerifC16Replay(h *verifh.H) {
 	if h.Symbolic() {
 		h.StubJWT(1, 1, 0, true, false)
 	} else {
-		time.Sleep(3200 * time.Millisecond)
+		time.Sleep(5500 * time.Millisecond)
 	}
 	tok2, err2 := cfg.ValidateToken(text)
 	h.Assert(!(err2 == nil && tok2 != nil), "the same token presented after its expiry is rejected")
